@@ -1,5 +1,6 @@
 /* C11 correspondence harness: esl_histogram.c and the maximum-likelihood fits
  * (esl_exponential.c esl_gumbel.c esl_lognormal.c esl_gamma.c esl_weibull.c esl_stretchexp.c esl_gev.c). */
+#include "esl_minimizer.c"      /* FIRST: gives access to the static bracket(), brent(), numeric_derivative() */
 #include "hcommon.h"
 #include <math.h>
 #include <unistd.h>
@@ -13,6 +14,7 @@
 #include "esl_gev.h"
 #include "esl_random.h"
 #include "esl_normal.h"
+#include "esl_rootfinder.h"
 
 #define H_FIT_TIMEOUT 8
 static ESL_HISTOGRAM *H;
@@ -112,9 +114,119 @@ static void do_sample(void) {
   h_out("%s", buf); free(buf); esl_randomness_Destroy(r);
 }
 
+
+/* ---- objective families shared with the model (Stats/Rootfinder.lean): same operation order on both sides ---- */
+struct rf_prm { int fam; double c[4]; };
+static int rf_fdf(double x, void *params, double *ret_fx, double *ret_dfx) {
+  struct rf_prm *p = (struct rf_prm *) params; double fx, dfx;
+  if      (p->fam == 0) { fx = ((p->c[3]*x + p->c[2])*x + p->c[1])*x + p->c[0]; dfx = (3.0*p->c[3]*x + 2.0*p->c[2])*x + p->c[1]; }
+  else if (p->fam == 1) { fx = exp(p->c[1]*x) - p->c[0];                           dfx = p->c[1]*exp(p->c[1]*x); }
+  else                  { fx = log(x) - p->c[0];                                    dfx = 1./x; }
+  *ret_fx = fx; if (ret_dfx) *ret_dfx = dfx; return eslOK;
+}
+static int rf_f(double x, void *params, double *ret_fx) { return rf_fdf(x, params, ret_fx, NULL); }
+
+struct obj_prm { int fam; double *p; int np; };
+static double P(struct obj_prm *o, int i) { return (i >= 0 && i < o->np) ? o->p[i] : 0.; }
+static double obj_func(double *x, int n, void *prm) {
+  struct obj_prm *o = (struct obj_prm *) prm; double fx = 0.; int i;
+  switch (o->fam) {
+  case 0: for (i = 0; i < n; i++) fx += P(o,i) * (x[i] - P(o,n+i)) * (x[i] - P(o,n+i)); return fx;
+  case 1: { double t1 = 1. - x[0], t2 = (n > 1 ? x[1] : 0.) - x[0]*x[0]; return t1*t1 + P(o,0)*t2*t2; }
+  case 2: for (i = 0; i < n; i++) fx += (exp(P(o,i) * x[i]) - P(o,n+i) * x[i]); return fx;
+  case 3: for (i = 0; i < n; i++) fx += (x[i] - P(o,i) * log(x[i])); return fx;
+  default: { int same = 1;
+      for (i = 0; i < n; i++) { double xi = x[i], ai = P(o,i), bi = P(o,n+i);
+        fx += (xi > bi) ? 2.0 * ai * (xi - bi) : ai * (bi - xi);
+        if (! (xi == bi)) same = 0; }
+      return same ? fx : fx + P(o,2*n); }
+  }
+}
+static void obj_dfunc(double *x, int n, void *prm, double *dx) {     /* quad only */
+  struct obj_prm *o = (struct obj_prm *) prm; int i;
+  for (i = 0; i < n; i++) dx[i] = 2.0 * P(o,i) * (x[i] - P(o,n+i));
+}
+static int obj_fam(const char *s) {
+  if (!s) return -1;
+  if (!strcmp(s, "quad")) return 0; if (!strcmp(s, "rosen")) return 1; if (!strcmp(s, "explin")) return 2;
+  if (!strcmp(s, "logbar")) return 3; if (!strcmp(s, "needle")) return 4; return -1;
+}
+static ESL_MIN_CFG *mk_cfg(int n) {      /* cfg=null -> NULL; cfg=create -> esl_min_cfg_Create(n) with the overrides given */
+  const char *c = h_arg("cfg"); ESL_MIN_CFG *cfg; double *u; int nu, i;
+  if (!c || strcmp(c, "create")) return NULL;
+  cfg = esl_min_cfg_Create(n);
+  if (h_arg("maxit"))    cfg->max_iterations = (int) h_argi("maxit", 100);
+  if (h_arg("brackmax")) cfg->brack_maxiter  = (int) h_argi("brackmax", 100);
+  if (h_arg("cgrtol"))   cfg->cg_rtol    = h_argbits("cgrtol");
+  if (h_arg("cgatol"))   cfg->cg_atol    = h_argbits("cgatol");
+  if (h_arg("brtol"))    cfg->brent_rtol = h_argbits("brtol");
+  if (h_arg("batol"))    cfg->brent_atol = h_argbits("batol");
+  if (h_arg("dstep"))    cfg->deriv_step = h_argbits("dstep");
+  if (h_arg("u")) { nu = parse_bits_list(h_arg("u"), &u); for (i = 0; i < n && i < nu; i++) cfg->u[i] = u[i]; free(u); }
+  return cfg;
+}
+
+static void do_root(void) {
+  const char *meth = h_arg("meth"), *fam = h_arg("fam"); struct rf_prm prm; double *c; int nc, i, reps = (int) h_argi("reps", 1);
+  ESL_ROOTFINDER *R; char buf[1024]; size_t len = 0; int bis;
+  if (!meth || !fam) { h_out("bad-op"); return; }
+  prm.fam = !strcmp(fam, "poly") ? 0 : !strcmp(fam, "exp") ? 1 : 2;
+  nc = parse_bits_list(h_arg("c"), &c); for (i = 0; i < 4; i++) prm.c[i] = i < nc ? c[i] : 0.; free(c);
+  bis = !strcmp(meth, "bis");
+  R = (bis && h_argi("fdf", 0) == 0) ? esl_rootfinder_Create(rf_f, &prm) : esl_rootfinder_CreateFDF(rf_fdf, &prm);
+  if (h_arg("abstol")) esl_rootfinder_SetAbsoluteTolerance(R, h_argbits("abstol"));
+  if (h_arg("reltol")) esl_rootfinder_SetRelativeTolerance(R, h_argbits("reltol"));
+  if (h_arg("restol")) esl_rootfinder_SetResidualTolerance(R, h_argbits("restol"));
+  if (h_arg("maxit"))  esl_rootfinder_SetMaxIterations(R, (int) h_argi("maxit", 100));
+  buf[0] = 0;
+  for (i = 0; i < reps && i < 3; i++) {
+    double x = -7777.; int st;
+    if (bis) { st = esl_root_Bisection(R, h_argbits("xl"), h_argbits("xr"), &x);
+               len += sprintf(buf + len, "%s%s x=%s iter=%d xl=%s xr=%s", i ? " | " : "", h_status(st), h_dbits(x), R->iter, bits6(0, R->xl), bits6(1, R->xr)); }
+    else     { st = esl_root_NewtonRaphson(R, h_argbits("guess"), &x);
+               len += sprintf(buf + len, "%s%s x=%s iter=%d x0=%s", i ? " | " : "", h_status(st), bits6(0, R->x), R->iter, bits6(1, R->x0)); }
+  }
+  esl_rootfinder_Destroy(R);
+  h_out("%s", buf);
+}
+
+static void do_min(const char *op) {
+  struct obj_prm o; double *x0, *d = NULL, *wrk; int n, nd, i; ESL_MIN_CFG *cfg; char *buf; size_t len = 0;
+  o.fam = obj_fam(h_arg("fam")); o.np = parse_bits_list(h_arg("p"), &o.p);
+  n = parse_bits_list(h_arg(!strcmp(op, "cgd") ? "x0" : "ori"), &x0);
+  if (o.fam < 0 || n < 1) { h_out("bad-op"); free(o.p); free(x0); return; }
+  cfg = mk_cfg(n); wrk = malloc(sizeof(double) * n); buf = malloc(64 + 24 * (size_t) n);
+  if (!strcmp(op, "cgd")) {
+    double fx = -7777.; int st; double *x = malloc(sizeof(double) * n); memcpy(x, x0, sizeof(double) * n);   /* exact-size copy */
+    alarm(H_FIT_TIMEOUT);
+    st = esl_min_ConjugateGradientDescent(cfg, x, n, obj_func, (h_argi("grad", 0) && o.fam == 0) ? obj_dfunc : NULL, &o, &fx, NULL);
+    alarm(0);
+    len += sprintf(buf + len, "%s fx=%s x=", h_status(st), h_dbits(fx));
+    if (st == eslOK || st == eslENOHALT) for (i = 0; i < n; i++) len += sprintf(buf + len, "%s%s", i ? "," : "", h_dbits(x[i]));
+    else len += sprintf(buf + len, "-");       /* "<x> is undefined" on thrown exceptions */
+    h_out("%s", buf); free(x);
+  } else {
+    nd = parse_bits_list(h_arg("d"), &d);
+    if (nd != n) h_out("bad-op");
+    else if (!strcmp(op, "bracket")) {
+      double ax, bx, cx, fa, fb, fc; int st = bracket(cfg, x0, d, n, h_argbits("first"), obj_func, &o, wrk, &ax, &bx, &cx, &fa, &fb, &fc, NULL);
+      if (st == eslOK) h_out("ok ax=%s bx=%s cx=%s fa=%s fb=%s fc=%s", bits6(0, ax), bits6(1, bx), bits6(2, cx), bits6(3, fa), bits6(4, fb), bits6(5, fc));
+      else h_out("%s", h_status(st));
+    } else {
+      double x = -7777., fx = -7777.;
+      alarm(H_FIT_TIMEOUT); brent(cfg, x0, d, n, obj_func, &o, h_argbits("a"), h_argbits("b"), wrk, &x, &fx, NULL); alarm(0);
+      h_out("ok x=%s fx=%s", bits6(0, x), bits6(1, fx));
+    }
+  }
+  if (cfg) esl_min_cfg_Destroy(cfg);
+  free(buf); free(wrk); free(d); free(x0); free(o.p);
+}
+
 static void h_op(void)
 {
   const char *op = h_words[0];
+  if (!strcmp(op, "root")) { do_root(); return; }
+  if (!strcmp(op, "cgd") || !strcmp(op, "bracket") || !strcmp(op, "brent")) { do_min(op); return; }
   if (!strcmp(op, "hnew")) {
     double bmin = h_argbits("bmin"), bmax = h_argbits("bmax"), w = h_argbits("w");
     if (H) esl_histogram_Destroy(H);
